@@ -242,6 +242,32 @@ theorem hypWords_map (base : Nat → Nat) (str : Nat → Bytes) (g : Fsg) (h : H
   simp only
   split <;> simp
 
+theorem chainGo_filterMap {β : Type} (base : Nat → β) (g : Fsg) (h : Hist) (f : Nat) (bp : Int) (acc : List Nat) :
+    (chainGo h f bp acc).filterMap (fun i =>
+        let l := linkOf g (ent h i)
+        if l.wid < 0 ∨ g.isFiller l.wid then none else some (base l.wid.toNat)) =
+      (visitGo base g h f bp).reverse ++ acc.filterMap (fun i =>
+        let l := linkOf g (ent h i)
+        if l.wid < 0 ∨ g.isFiller l.wid then none else some (base l.wid.toNat)) := by
+  induction f generalizing bp acc with
+  | zero => simp [chainGo, visitGo]
+  | succ k ih =>
+    unfold chainGo visitGo
+    by_cases hb : bp > 0
+    · simp only [hb, if_true]
+      rw [ih]
+      by_cases hc : (linkOf g (ent h bp.toNat)).wid < 0 ∨ g.isFiller (linkOf g (ent h bp.toNat)).wid = true
+      · simp [hc]
+      · simp [hc]
+    · simp [hb]
+
+/-- the C loops visit the hypothesis words in the reverse of utterance order -/
+theorem visitWords_eq {β : Type} (base : Nat → β) (g : Fsg) (h : Hist) (bp : Int) :
+    visitWords base g h bp = (hypWords base g h bp).reverse := by
+  unfold visitWords hypWords chain
+  rw [chainGo_filterMap]
+  simp
+
 /-- the byte-level model and the list-level model `hyp` agree on WHEN there is a result, and the block is built
 from the list `hyp` returns -/
 theorem hypRet_eq (base : Nat → Nat) (str : Nat → Bytes) (g : Fsg) (h : Hist) (cur : Int) (final : Bool) :
@@ -253,7 +279,7 @@ theorem hypRet_eq (base : Nat → Nat) (str : Nat → Bytes) (g : Fsg) (h : Hist
   simp only
   split
   · rfl
-  · rw [hypWords_map]
+  · rw [visitWords_eq, hypWords_map]
     generalize hypWords base g h _ = ws
     cases ws with
     | nil => simp [hypBuf_nil]
